@@ -94,6 +94,66 @@ theorem stepL_fund_spec {l l' : L} {i : Nat} {first : Bool} {x : Nat} {o : Out}
     obtain ⟨rfl, _⟩ := h
     exact ⟨rfl, rfl, rfl, rfl, Or.inr ⟨by simpa using hf, rfl, rfl, rfl⟩⟩
 
+
+/-! ### plain transfers between accounts -/
+
+theorem debit_spec {x y : Acct} {t : Tok} {n : Nat} (h : x.debit t n = some y) :
+    n ≤ x.bal t ∧ y.bal t = x.bal t - n ∧
+    y.a + (if t = .a then n else 0) = x.a ∧ y.b + (if t = .b then n else 0) = x.b ∧
+    y.lp + (if t = .lp then n else 0) = x.lp ∧ y.lkA = x.lkA ∧ y.lkB = x.lkB := by
+  cases t <;>
+    simp only [Acct.debit, Option.bind_eq_bind, Option.bind_eq_some_iff, sub?_eq_some,
+      Option.pure_def, Option.some.injEq] at h <;>
+    obtain ⟨v, ⟨h1, rfl⟩, rfl⟩ := h <;>
+    simp only [Acct.bal, reduceCtorEq, eq_self, if_true, if_false] <;>
+    exact ⟨h1, trivial, by omega, by omega, by omega, trivial, trivial⟩
+
+theorem credit_spec (x : Acct) (t : Tok) (n : Nat) :
+    (x.credit t n).bal t = x.bal t + n ∧
+    (x.credit t n).a = x.a + (if t = .a then n else 0) ∧
+    (x.credit t n).b = x.b + (if t = .b then n else 0) ∧
+    (x.credit t n).lp = x.lp + (if t = .lp then n else 0) ∧
+    (x.credit t n).lkA = x.lkA ∧ (x.credit t n).lkB = x.lkB := by
+  cases t <;> simp [Acct.credit, Acct.bal]
+
+theorem xferAccts_spec {accts accts' : List Acct} {src dst : Nat} {t : Tok} {x : Nat}
+    (h : xferAccts accts src dst t x = some accts') :
+    ∃ s s' d, 0 < x ∧ accts[src]? = some s ∧ s.debit t x = some s' ∧
+      (accts.set src s')[dst]? = some d ∧ accts' = (accts.set src s').set dst (d.credit t x) := by
+  simp only [xferAccts, Option.bind_eq_bind, Option.bind_eq_some_iff, req_eq_some,
+    Option.pure_def, Option.some.injEq] at h
+  obtain ⟨_, hx, s, hs, s', hd, d, hdst, rfl⟩ := h
+  exact ⟨s, s', d, hx, hs, hd, hdst, rfl⟩
+
+/-- a plain transfer changes no column total of the ledger (and no length) -/
+theorem xferAccts_sums {accts accts' : List Acct} {src dst : Nat} {t : Tok} {x : Nat}
+    (h : xferAccts accts src dst t x = some accts') :
+    sumOf (·.a) accts' = sumOf (·.a) accts ∧ sumOf (·.b) accts' = sumOf (·.b) accts ∧
+    sumOf (·.lp) accts' = sumOf (·.lp) accts ∧ sumOf (·.lkA) accts' = sumOf (·.lkA) accts ∧
+    sumOf (·.lkB) accts' = sumOf (·.lkB) accts ∧ accts'.length = accts.length := by
+  obtain ⟨s, s', d, _, hs, hd, hdst, rfl⟩ := xferAccts_spec h
+  obtain ⟨_, _, d1, d2, d3, d4, d5⟩ := debit_spec hd
+  obtain ⟨_, c1, c2, c3, c4, c5⟩ := credit_spec d t x
+  have a1 := sumOf_set (·.a) accts src s s' hs
+  have a2 := sumOf_set (·.a) (accts.set src s') dst d (d.credit t x) hdst
+  have b1 := sumOf_set (·.b) accts src s s' hs
+  have b2 := sumOf_set (·.b) (accts.set src s') dst d (d.credit t x) hdst
+  have l1 := sumOf_set (·.lp) accts src s s' hs
+  have l2 := sumOf_set (·.lp) (accts.set src s') dst d (d.credit t x) hdst
+  have k1 := sumOf_set (·.lkA) accts src s s' hs
+  have k2 := sumOf_set (·.lkA) (accts.set src s') dst d (d.credit t x) hdst
+  have m1 := sumOf_set (·.lkB) accts src s s' hs
+  have m2 := sumOf_set (·.lkB) (accts.set src s') dst d (d.credit t x) hdst
+  refine ⟨by omega, by omega, by omega, by omega, by omega, by simp⟩
+
+theorem stepL_xfer_spec {l l' : L} {src dst : Nat} {t : Tok} {x : Nat} {o : Out}
+    (h : stepL l (.xfer src dst t x) = some (l', o)) :
+    ∃ accts', xferAccts l.accts src dst t x = some accts' ∧ l' = { l with accts := accts' } := by
+  simp only [stepL, Option.bind_eq_bind, Option.bind_eq_some_iff, Option.pure_def,
+    Option.some.injEq, Prod.mk.injEq] at h
+  obtain ⟨accts', ha, rfl, _⟩ := h
+  exact ⟨accts', ha, rfl⟩
+
 /-! ### the ledger invariant -/
 
 /-- What holds of the ledger after every history:
@@ -162,12 +222,21 @@ theorem fund_inv {l l' : L} {i : Nat} {first : Bool} {x : Nat} {o : Out} (hi : L
     refine ⟨by rw [e1]; exact hinv, by rw [e1, e2]; exact iA, by rw [e1, e3]; exact iB,
       by rw [e1, e4]; exact iLp, ?_, ?_, ?_, ?_, ?_⟩ <;> rw [e1, ea] <;> omega
 
+theorem xfer_inv {l l' : L} {src dst : Nat} {t : Tok} {x : Nat} {o : Out} (hi : LInv l)
+    (h : stepL l (.xfer src dst t x) = some (l', o)) : LInv l' := by
+  obtain ⟨accts', ha, rfl⟩ := stepL_xfer_spec h
+  obtain ⟨e1, e2, e3, e4, e5, _⟩ := xferAccts_sums ha
+  obtain ⟨hinv, iA, iB, iLp, iS, cA, cB, kA, kB⟩ := hi
+  exact ⟨hinv, iA, iB, iLp, by simpa [e3] using iS, by simpa [e1] using cA, by simpa [e2] using cB,
+    by simpa [e4] using kA, by simpa [e5] using kB⟩
+
 /-- one ledger operation (any caller, any operation, any arguments) preserves the invariant -/
 theorem stepL_inv {l l' : L} {op : LOp} {o : Out} (hi : LInv l)
     (h : stepL l op = some (l', o)) : LInv l' := by
   cases op with
   | fund i f x => exact fund_inv hi h
   | call i op => exact call_inv hi h
+  | xfer i j t x => exact xfer_inv hi h
 
 theorem runL_cons (l : L) (op : LOp) (ops : List LOp) :
     runL l (op :: ops) = runL (match stepL l op with | some (l', _) => l' | none => l) ops := rfl
@@ -219,6 +288,7 @@ def pairOps : L → List LOp → List Op
       match op with
       | .call _ o => o :: pairOps l' ops
       | .fund _ _ _ => pairOps l' ops
+      | .xfer _ _ _ _ => pairOps l' ops
 
 /-- the pair inside the ledger after a ledger history is the pair after the history of its
     successful calls (a call the ledger rejects because the caller's wallet is short is a
@@ -244,6 +314,10 @@ theorem runL_p (ops : List LOp) (l : L) : (runL l ops).p = Pair.run l.p (pairOps
         simp only [pairOps, h]
         rw [ih l1, e1]
         simp [Pair.run, hs]
+      | xfer i j t x =>
+        obtain ⟨_, _, rfl⟩ := stepL_xfer_spec h
+        simp only [pairOps, h]
+        rw [ih]
 
 /-! ### the pair's own LP never decreases -/
 
@@ -261,6 +335,9 @@ theorem stepL_pairLp_mono {l l' : L} {op : LOp} {o : Out} (hi : LInv l)
     have h2 := hi'.pairLp
     rw [e1] at h2
     omega
+  | xfer i j t x =>
+    obtain ⟨_, _, rfl⟩ := stepL_xfer_spec h
+    exact Nat.le_refl _
 
 theorem runL_pairLp_mono (ops : List LOp) {l : L} (hi : LInv l) :
     l.pairLp ≤ (runL l ops).pairLp := by
